@@ -22,7 +22,7 @@ RULE = ('histories of 1-10 steps: unit environments opened with valid units (dic
 SHARDS = {'quick': 16, 'thorough': 16}
 MIN_NONTRIVIAL = {'quick': 600, 'thorough': 15000}
 REQUIRED_CLASSES = ['scope-valid', 'scope-nested', 'scope-repeated', 'scope-body-raises', 'fail:duplicate-standard', 'fail:duplicate-outer',
-                    'fail:prefixed-clash', 'fail:malformed', 'fail:malformed-entry-with-new-conversion-type', 'fail:entry-admits-an-unknown-prefix', 'fail-after-successes', 'form:dict', 'form:quantity', 'form:prefixes',
+                    'fail:prefixed-clash', 'fail:malformed', 'fail:malformed-entry-with-new-conversion-type', 'fail:entry-admits-an-unknown-prefix', 'custom-type-unit-used-inside-scope', 'fail-after-successes', 'form:dict', 'form:quantity', 'form:prefixes',
                     'form:custom-type', 'dip:valid', 'dip:clash-second-unit', 'dip:unrelated-error', 'dip:expression', 'dip:add_unit',
                     'dip:nested-in-scope', 'dip:units-from-source']
 REQUIRED_MONITORS = ['scope_events', 'scope_end_digest_compares', 'failed_open_digest_compares', 'parse_digest_compares',
@@ -43,8 +43,18 @@ def setup():
     log = []
 
     class CustomUnitType(UnitType):
+        # an ACTIVE conversion class: every conversion that involves one of its units doubles the base value - a rule no
+        # built-in type has, so that "usable inside the scope" can be observed for units registered with a class of their own
+        process = []          # symbols of the units currently registered with this class (set by the harness)
+
         def _istype(self):
+            if any(u in self.process for u in self.baseunits1.units + self.baseunits2.units):
+                self.conversion = ('_convert_double',)
+                return True
             return False
+
+        def _convert_double(self, value):
+            return 2 * value
 
     class CustomUnitType2(UnitType):
         def _istype(self):
@@ -217,8 +227,22 @@ def run_items(items, ctx, st, active):
 
 def check_usable(ctx, st, active):
     Q = ctx['Q']
+    ctx['CT'].process = [u['sym'] for u in active if u['form'] == 'custom-type']
     for u in active:
         if u['form'] == 'custom-type':
+            # registered with a conversion class of its own: that class converts it (also into a unit of another dimension,
+            # which no built-in class would do), and it is the class that governs conversions of its unit
+            st['mon']['custom_type_usable_checks'] = st['mon'].get('custom_type_usable_checks', 0) + 1
+            st['classes'].add('custom-type-unit-used-inside-scope')
+            try:
+                v = float(Q(3, u['sym']).value('s'))
+                if not close(v, 2 * 3 * u['mag'], 1e-12):
+                    st['devs'].append(dev('custom-conversion-class-gives-wrong-result', dict(unit=u, observed=v, expected=6 * u['mag'])))
+                w = float(Q(3, u['sym']).value('m'))
+                if not close(w, 2 * 3 * u['mag'], 1e-12):
+                    st['devs'].append(dev('custom-conversion-class-not-used-for-its-unit', dict(unit=u, observed=w, expected=6 * u['mag'])))
+            except Exception as e:
+                st['devs'].append(dev('unit-with-custom-conversion-class-not-usable-inside-scope', dict(unit=u, exc=repr(e)[:120])))
             continue
         st['mon']['usable_inside_checks'] += 1
         try:
